@@ -764,6 +764,73 @@ CODES = {1: "model errs / implementation does not (or vice versa)", 2: "trajecto
 
 
 # ---------------------------------------------------------------------------
+# fixed corpus (run first, every seed) and line coverage of the modelled methods
+
+def corpus(modes=(True, False)):
+    """histories that reach every branch of the modelled methods deterministically: buffer growth in
+    integrate and in predict, empty chunk, predict of the next / a foreign / a used increment, set_pva,
+    getters, both altitude modes, no growth at the default capacity"""
+    out = []
+    for alt in modes:
+        out.append(dict(alt=alt, cap=1, seed=11, n=8, nf=2, npva=3,
+                        ops=[['I', 0], ['I', 2], ['P', 2], ['P', 8], ['G'], ['T'], ['S', 1], ['I', 3], ['P', 0],
+                             ['S', 2], ['I', 0], ['G'], ['T'], ['I', 3]]))
+        out.append(dict(alt=alt, cap=10000, seed=12, n=4, nf=1, npva=2,
+                        ops=[['P', 0], ['I', 4], ['S', 1], ['G'], ['T']]))
+    return out
+
+
+# source lines of the modelled methods that may stay unexecuted, each with its reason
+COV_ALLOW = (
+    'assert False',     # _integrate: `mode` is only ever 'integrate' or 'predict' (private helper called by the
+                        # two public methods); the model has no such path
+)
+
+
+def cov_functions():
+    from pyins import strapdown
+    I = strapdown.Integrator
+    return {'Integrator.__init__': I.__init__, 'Integrator._integrate': I._integrate,
+            'Integrator.integrate': I.integrate, 'Integrator.predict': I.predict,
+            'Integrator.get_time': I.get_time, 'Integrator.get_pva': I.get_pva,
+            'Integrator.set_pva': I.set_pva}
+
+
+class Coverage:
+    """linecov.LineCoverage plus the bookkeeping every harness needs (C13 reuses it)"""
+
+    def __init__(self, functions, allow):
+        import linecov
+        self.cov = linecov.LineCoverage(functions)
+        self.allow = allow
+        self.was_active = False
+
+    def __enter__(self):
+        self.cov.__enter__()
+        self.was_active = self.cov.active
+        return self
+
+    def __exit__(self, *a):
+        return self.cov.__exit__(*a)
+
+    def finish(self, r):
+        if not self.was_active:
+            r.log("line coverage: sys.monitoring tool id not available, not measured")
+            r.coverage['code_lines'] = dict(measured=False)
+            return
+        summ, missing = self.cov.report(allow=self.allow)
+        r.coverage['code_lines'] = dict(measured=True, functions=summ, allowed_unreached=list(self.allow))
+        tot = sum(v['executable'] for v in summ.values())
+        got = sum(v['executed'] for v in summ.values())
+        r.log(f"line coverage of the modelled implementation functions: {got}/{tot} executable lines executed, "
+              f"{len(missing)} unexpected unreached")
+        if missing:
+            r.broken('correspondence', 'code line not exercised',
+                     "the generated cases never execute these lines of the code the model claims to cover: "
+                     + "; ".join(missing))
+
+
+# ---------------------------------------------------------------------------
 # one history through everything except coqc (picklable result; used serially and in a pool)
 
 def process(h):
@@ -975,14 +1042,24 @@ def check(r):
     bad = kernel_isolation(r, rng, 40 if quick else 600)
     for b in bad[:3]:
         r.violation("compiled kernel: " + b['what'], dict(key='c02-kernel', **b))
-    hists = []
+    hists = corpus()
     for cap in CAPS:                       # every capacity and mode is present in every run
         for alt in (True, False):
             hists.append(gen_history(rng, dict(cap=cap, alt=alt)))
     n = 300 if quick else 20000
     while len(hists) < n:
         hists.append(gen_history(rng))
-    problems, results = run_batch(r, hists, 'c02', workers)
+    cv = Coverage(cov_functions(), COV_ALLOW)
+    if workers > 1:
+        # the pool's processes are not monitored: a serial slice of the same generator (corpus first) is
+        with cv:
+            for h in hists[:150]:
+                process(h)
+        problems, results = run_batch(r, hists, 'c02', workers)
+    else:
+        with cv:                           # quick tier: the whole batch runs in this process
+            problems, results = run_batch(r, hists, 'c02', workers)
+    cv.finish(r)
     r.coverage['distribution'] = distribution(results)
     printed_model_sample(r, results, 10 if quick else 40)
     if not quick:
@@ -997,7 +1074,8 @@ def check(r):
         r.coverage['exhaustive'] = dict(histories=ex_total, max_ops="5 (cap 2 in 2D, cap 3 in 3D), 4 (cap 2 in 3D, cap 3 in 2D)",
                                         alphabet="I0 I1 I2 I3 Pnext Pforeign S (+ final G, T)",
                                         capacities=[2, 3], modes=['3D', '2D'])
-        r.hygiene()
+        r.hygiene('Props/C02.v')
+        r.coqchk('Props/C02.v')
     r.log(f"correspondence: {len(results)} random histories, {problems} problem(s)")
 
 
